@@ -136,7 +136,7 @@ def run(prop: str, tier: str) -> int:
     v = r.verdicts()
     judged = [t for t, cl in v.items() if "ACCEPT" in cl or "REJECT" in cl]
     if not r.completed or len(judged) != n:
-        raise MachineryError(f"KeywordTrace: {len(judged)}/{n} judged\n" + "\n".join(r.out.splitlines()[-30:]))
+        raise MachineryError(f"KeywordTrace: {len(judged)}/{n} judged\n" + r.diagnosis())
     res.add("trace_states", r.distinct)
     with open(path) as f:
         lines = f.read().splitlines()
